@@ -96,6 +96,8 @@ func vsVariant(g string, v int) *metadatapb.ConsumerGroup {
 				"m2": {ClientId: "c2", ClientHost: "h2", Subscriptions: []string{"t/u"}},
 			},
 		}
+	case 3: // a dead group without members
+		return &metadatapb.ConsumerGroup{GroupId: g, State: "dead", ProtocolType: "consumer", GenerationId: 7, Members: map[string]*metadatapb.GroupMember{}}
 	}
 	return nil
 }
@@ -133,7 +135,7 @@ func vsAbstractGroup(id string, g *metadatapb.ConsumerGroup) (int, bool) {
 		return 0, true
 	}
 	got := vsProjectGroup(g)
-	for v := 1; v <= 2; v++ {
+	for v := 1; v <= 3; v++ {
 		want := vsProjectGroup(vsVariant(id, v))
 		if reflect.DeepEqual(vsStripTimeouts(got), vsStripTimeouts(want)) {
 			return v, reflect.DeepEqual(got, want)
